@@ -264,9 +264,12 @@ def lmtp_scenario(rng, target, ending):
         dline(b"Subject: x")
         big = b"y" * 70 + b"\r\n"
         sc.desc.append("oversize-line")
-        sc.step(big, "lmtp:1", [ev_data(big)])
+        sc.step(big, "quiet:40", [ev_data(big)])
+        dline(b"NOOP")                            # still message data: discarded
+        sc.desc.append(".")
+        sc.step(b".\r\n", "lmtp:1", [ev_data(b".\r\n", True)])   # 552, one per recipient; transaction reset
         cmd("NOOP")
-        cmd("DATA")                               # sender and recipients are still set
+        cmd("DATA")                               # 503: no sender any more
     elif target == "rset":
         lh(); mail(); rcpt(); cmd("RSET"); cmd("DATA")
     elif target == "quit":
@@ -479,6 +482,33 @@ SRV_HISTORIES = {
 }
 
 
+def run_one(o, timeout=90):
+    import subprocess
+    try:
+        return C.run_ops(o, timeout=timeout)
+    except subprocess.TimeoutExpired:
+        return {"crashed": True, "stderr": "the driver did not finish the scenario within %d s" % timeout, "obs": []}
+
+
+def run_all(ops, workers=10):
+    from concurrent.futures import ThreadPoolExecutor
+    C.build_driver()
+    with ThreadPoolExecutor(max_workers=workers) as ex:
+        return list(ex.map(run_one, ops))
+
+
+def clone_with_ending(sc, ending):
+    """the same command prefix (hence the same model state), another way of abandoning the session"""
+    alt = Sc(sc.proto, **sc.kw)
+    alt.steps = [s for s in sc.steps if s["compare"]]
+    alt.desc = list(sc.desc[:-1])
+    alt.target = sc.target
+    alt.gone_at = sum(len(s["events"]) for s in alt.steps)
+    alt.end = ending
+    alt.tail = ["Timeout"] * 3 if ending == "silent" else ["Eof"] * 3
+    return alt
+
+
 def run(chk):
     findings = chk.findings
     scs = build_scenarios(chk)
@@ -516,10 +546,11 @@ def run(chk):
             hist_idx[(svc, h)] = (len(ops), idx)
             ops.append(o)
 
-    results = C.run_many(ops, workers=10, timeout=120)
+    results = run_all(ops)
     for i, r in enumerate(results):
         if r.get("crashed"):
-            chk.broken_obligation("driver crashed on C20 scenario %d: %s" % (i, r.get("stderr", "")[:400]), {"ops": ops[i]})
+            chk.violation("the driver process did not survive / finish C20 scenario %d (%s): %s" % (
+                i, " / ".join(scs[i].desc) if i < len(scs) else "service scenario", r.get("stderr", "")[:300]), {"suite": "crash", "ops": ops[i]})
             return
 
     # ---- model side
@@ -573,11 +604,12 @@ def run(chk):
             why += [] if m_done else ["termination (model: still running)"]
             # the spec (session ended) holds on this input; look for a failing neighbour: same prefix, other endings
             found = False
-            if not l_ok and sc.proto == "imap":
-                # a deadline the model does not know: is some read now unguarded? silence must still end the session
-                alt = imap_scenario(chk.rng, sc.target, sc.kw["tls"], "silent")
-                r2 = C.run_ops(ops_of(alt), timeout=60)
-                if not r2.get("crashed") and r2["obs"][alt.done_idx].get("done") is not True and sc.target not in ("idle", "idle_junk"):
+            if not l_ok and sc.proto == "imap" and sc.end == "close" and sc.gone_at == sum(len(s["events"]) for s in sc.steps):
+                # a deadline the model does not know: is some read now unguarded? with the same prefix
+                # (same model state, not in a finding class) silence must still end the session
+                alt = clone_with_ending(sc, "silent")
+                r2 = run_one(ops_of(alt), timeout=60)
+                if not r2.get("crashed") and r2["obs"][alt.done_idx].get("done") is not True:
                     found = True
                     chk.violation("%s: with the client silent the handler had not returned after %d ms" % (what, WAIT_SILENT_MS),
                                   dict(payload, ops=ops_of(alt), ending="silent"))
